@@ -79,7 +79,7 @@ TraceMsg ==
   /\ IsEvent("msg")
   /\ LET e == Trace[l]  c == e.c IN
      /\ ("C08" \in Lens) =>
-          /\ e.res = "reply" /\ e.extra = 0
+          /\ e.res = "reply"
           /\ Len(e.ans) = Len(e.ias)
           /\ \A k \in Idx(e.ias) : AnswerOK(c, e.ias[k], e.ans[k])
      /\ ("C09" \in Lens) =>
@@ -104,7 +104,7 @@ TraceMsg ==
 
 TraceIA ==
   /\ IsEvent("ia")
-  /\ ("C16" \in Lens) => Trace[l].held
+  /\ ("DISC" \in Lens) => Trace[l].held            \* lock discipline of the present design (drift detector only)
   /\ UNCHANGED <<N, page, told, owner, exp>>
 
 TraceNote == IsEvent("note") /\ UNCHANGED <<N, page, told, owner, exp>>
